@@ -36,7 +36,7 @@ struct C20 : Property
 	std::vector<std::string> probes() const override
 	{
 		return {"read.exactly_buffer_size", "read.final_short_read_of_1", "read.multiple_buffers", "write.loop_more_than_one_iteration", "write.bytewise", "error.first_call", "error.middle_call",
-		        "error.last_call", "open.failure", "alloc.failure_inside_from_fd", "alloc.failure_inside_to_fd", "parse.error_reported", "depth.limit_applied", "depth.limit_above_default_used", "to_file.closes_once_on_error"};
+		        "error.last_call", "open.failure", "alloc.failure_inside_from_fd", "alloc.failure_inside_to_fd", "parse.error_reported", "depth.limit_applied", "depth.limit_above_default_used", "to_file.closes_once_on_error", "write.failure_with_message"};
 	}
 	std::map<std::string, int64_t> cfg_defaults() const override { return {{"sched", 0}}; }
 
@@ -240,8 +240,9 @@ struct C20 : Property
 					if (e.file.size() == expected.size() && e.injected && !expected.empty())
 						bad(ctx, "failure-after-complete-write", e, faults, "all %zu bytes were delivered and yet a write error was reported", expected.size());
 				}
-				if (e.injected && (e.errmsg.empty() || e.errmsg == sentinel))
-					bad(ctx, "no-error-message", e, faults, "write failure without a new json_util_get_last_err() message");
+				// (the property asks for a retrievable message on the read side only; on the write side the return value is the channel)
+				if (e.injected && !(e.errmsg.empty() || e.errmsg == sentinel))
+					ctx.probe("write.failure_with_message");
 			}
 			// descriptor accounting
 			if (api == 0)
